@@ -17,7 +17,7 @@ PID = "C01"
 BOUNDS = ("corpus of checks/corpus.py: kinds {INSERT, INSERT(cols), CTAS, CREATE VIEW, bare query, UPDATE..FROM, MERGE, no-data kinds} x 21 "
           "FROM shapes x forms {plain, UNION [ALL] 2-3 branches, CTE (1-2, chained), WHERE IN/EXISTS subquery, parenthesised, "
           "scalar subquery in select list / HAVING / CASE / function} x nesting <= 2 (thorough: + 120 seeded depth-4 compositions); "
-          "free names: up to 5 (quick) / 7 (thorough) of the table-ish slots, bodies of 2 characters (thorough: also 3 and mixed "
+          "free names: up to 5 (quick) / 6 (thorough) of the table-ish slots, bodies of 2 characters (thorough: also 3 and mixed "
           "1-3); dialect ansi (thorough: + sparksql, postgres, tsql, bigquery, snowflake, mysql on a seeded third)")
 STUBS = ["sqllineage.runner.split -> statement handles of the template",
          "SqlFluffLineageAnalyzer._list_specific_statement_segment -> pre-parsed, symbolised tree"]
@@ -108,7 +108,7 @@ def obligations(tier, seed):
 
     rnd = random.Random("c01/%s" % seed)
     tpl = corpus.build(tier, seed)
-    budget = 5 if tier == "quick" else 7
+    budget = 5 if tier == "quick" else 6
     obs = [TableOb(k, st, "ansi", "tabs", budget, seed) for k, st in tpl]
     raw = [RawTableOb(n, d, q, e) for n, (d, q, e) in RAW.items()]
     if tier == "quick":
